@@ -264,3 +264,76 @@ Proof.
                   (exact_regime n q) c o g) as S.
     rewrite En in S. apply S; [exact Hg | exact E4].
 Qed.
+
+(* ====================================================================== *)
+(* op 2: SampleCI                                                           *)
+(* ====================================================================== *)
+Fixpoint dec_all (l : list Z) : option (list Q) :=
+  match l with
+  | [] => Some []
+  | b :: t => match decode_bits b, dec_all t with XFin x, Some r => Some (x :: r) | _, _ => None end
+  end.
+
+Definition c11_sample_case : Type :=
+  (Z * Z * Z * Z * (bool * bool * Z) * (list Z * list Z) * (Z * xreal * xreal * Z))%type.
+Definition p_op2 : parser c11_sample_case :=
+  do N <- pZ; do lo <- pZ; do hi <- pZ; do qb <- pZ; do w <- pbool; do sf <- pbool; do st <- pZ;
+  do xb <- plist pZ; do xa <- plist pZ; do qret <- pZ; do loret <- pX; do hiret <- pX; do qref <- pZ;
+  pend (N, lo, hi, qb, (w, sf, st), (xb, xa), (qret, loret, hiret, qref)).
+
+(* observed value = expected value (finite values as rationals) *)
+Definition xsame (e o : xreal) : Prop :=
+  match e with
+  | XFin q => exists v, o = XFin v /\ v == q
+  | XInf s => o = XInf s
+  | XNaN => o = XNaN
+  end.
+Lemma xeq_xsame : forall e o, xeq e o = true -> xsame e o.
+Proof. intros [|s|q] o H; cbn; [apply xeq_nan | apply xeq_inf | apply xeq_fin]; exact H. Qed.
+
+(* [xb] = the sample's bit patterns before the call, [xa] after; st 0 returned / 2 panicked;
+   qret = first result, qref = Quantile(q) of a sorted copy (both as bit patterns) *)
+Definition sample_ok (c : c11_sample_case) : Prop :=
+  let '(N, lo, hi, qb, (w, sf, st), (xb, xa), (qret, loret, hiret, qref)) := c in
+  exists xs, dec_all xb = Some xs /\ xa = xb /\
+    match sample_ci N lo hi w sf xs with
+    | SciPanic => st = 2%Z
+    | SciOk elo ehi _ => st = 0%Z /\ xsame elo loret /\ xsame ehi hiret /\ qret = qref
+    end.
+
+Lemma p_op2_complete : forall rest v r, p_op2 rest = Some (v, r) -> r = [].
+Proof.
+  intros rest v r H. unfold p_op2 in H.
+  repeat (apply pbind_some in H as (? & ? & _ & H)). apply pend_some in H as (_ & _ & ->). reflexivity.
+Qed.
+
+Theorem check_C11_op2_sound : forall rest, accepted (check_C11 (11%Z :: 2%Z :: rest)) ->
+  exists c, p_op2 rest = Some (c, []) /\ sample_ok c.
+Proof.
+  intros rest H. cbn [check_C11] in H.
+  change (do N <- pZ; do lo <- pZ; do hi <- pZ; do qb <- pZ; do w <- pbool; do sf <- pbool; do st <- pZ;
+          do xb <- plist pZ; do xa <- plist pZ; do qret <- pZ; do loret <- pX; do hiret <- pX; do qref <- pZ;
+          pend (N, lo, hi, qb, (w, sf, st), (xb, xa), (qret, loret, hiret, qref))) with p_op2 in H.
+  destruct (p_op2 rest) as [[c r]|] eqn:EP; [|apply accepted_verdict in H; unfold V_MALFORMED in H; lia].
+  pose proof (p_op2_complete _ _ _ EP) as ->.
+  exists c. split; [reflexivity|].
+  destruct c as [[[[[[N lo] hi] qb] [[w sf] st]] [xb xa]] [[[qret loret] hiret] qref]].
+  change ((fix dec (l : list Z) : option (list Q) :=
+             match l with
+             | [] => Some []
+             | b :: t => match decode_bits b, dec t with XFin x, Some r => Some (x :: r) | _, _ => None end
+             end) xb) with (dec_all xb) in H.
+  destruct (dec_all xb) as [xs|] eqn:ED; [|apply accepted_verdict in H; unfold V_MALFORMED in H; lia].
+  unfold sample_ok. exists xs. split; [exact ED|].
+  destruct (list_Z_eqb xb xa) eqn:EL; cbn [negb] in H; [|apply accepted_verdict in H; unfold V_MISMATCH in H; lia].
+  apply list_Z_eqb_eq in EL. split; [symmetry; exact EL|].
+  destruct (sample_ci N lo hi w sf xs) as [|elo ehi s].
+  - destruct (st =? 2)%Z eqn:E2; [apply Z.eqb_eq in E2; exact E2 | apply accepted_verdict in H; unfold V_MISMATCH in H; lia].
+  - cbv zeta in H.
+    destruct (st =? 0)%Z eqn:E0; cbn [negb] in H; [|apply accepted_verdict in H; unfold V_MISMATCH in H; lia].
+    destruct (xeq elo loret) eqn:E1; cbn [negb] in H; [|apply accepted_verdict in H; unfold V_MISMATCH in H; lia].
+    destruct (xeq ehi hiret) eqn:E3; cbn [negb] in H; [|apply accepted_verdict in H; unfold V_MISMATCH in H; lia].
+    destruct (qret =? qref)%Z eqn:E4; cbn [negb] in H; [|apply accepted_verdict in H; unfold V_MISMATCH in H; lia].
+    apply Z.eqb_eq in E0. apply Z.eqb_eq in E4.
+    split; [exact E0|]. split; [apply xeq_xsame; exact E1|]. split; [apply xeq_xsame; exact E3 | exact E4].
+Qed.
